@@ -245,7 +245,8 @@ def main(tier, replay):
         base = base[:110]
     # always present: pessimistic shapes whose primary (first locked key) is not the first key of its region, with a batch
     # limit that cuts between the keys of that region (batch bookkeeping of the primary)
-    for b in [(sh, mode, True, 3) for sh in shapes6() if sh["name"] in ("n4l0o1", "n4l1o1", "n6a") for mode in ("2pc", "async")
+    for b in [(sh, mode, True, sh.get("batch_size", 3)) for sh in shapes6() + txnlab.late_primary_shapes()
+              if sh["name"] in ("n4l0o1", "n4l1o1", "n6a") or sh["name"].startswith("lp") for mode in ("2pc", "async", "1pc")
               if not (mode == "async" and "lock" in txnlab.expected_mutations({"ops": sh["ops"], "pessimistic": True}).values())]:
         if not any(x[0]["name"] == b[0]["name"] and x[1:] == b[1:] for x in base):
             base.append(b)
@@ -276,6 +277,24 @@ def main(tier, replay):
     if tier == "quick" and len(cases) > 1200:
         rng.shuffle(cases)
         cases = cases[:1200]
+    # always present: async-commit recovery by resolvers. The committer dies while prewriting (some secondary is never locked,
+    # others are), the secondaries lie in >= 2 regions; fresh clients then decide the transaction from CheckTxnStatus +
+    # CheckSecondaryLocks. The order in which the regions answer is left to the scheduler: every case runs several times.
+    rec = []
+    for sh in shapes6():
+        if len(sh["splits"]) < 2 or "lock" in txnlab.expected_mutations({"ops": sh["ops"], "pessimistic": False}).values():
+            continue
+        for pess in (False, True):
+            if pess and "lock" in txnlab.expected_mutations({"ops": sh["ops"], "pessimistic": True}).values():
+                continue
+            for i in range(1, 6):
+                for kind in ("crash_undelivered", "crash_delivered"):
+                    for rep in range(2 if tier == "quick" else 6):
+                        rec.append(txnlab.mk_scenario(f"{sh['name']}-async-{'p' if pess else 'o'}-rec{i}-{kind}-r{rep}", sh, "async", pess, faults=[{"at": i, "kind": kind}]))
+    if tier == "quick":
+        rng.shuffle(rec)
+        rec = rec[:160]
+    cases += rec
     # always present: the single prewrite request of a one-region transaction meets a split (before it is delivered / after it
     # was applied with the answer lost) and is re-split into several requests: 1PC must be given up, async commit kept
     for sh in shapes6():
@@ -317,6 +336,18 @@ def main(tier, replay):
     progs = [C01.gen_history(prng, 50000 + i) for i in range(80 if tier == "quick" else 1200)]
     for sc in progs:
         sc["id"] = "prog-" + sc["id"]
+    # resolver status cache / stale resolve: judged by the acceptor (rule 3: a rollback needs a status answer that says so) and by
+    # "an acknowledged commit is on every key it wrote"
+    import perc_progs
+    srp = perc_progs.stale_resolve_programs(random.Random(vlib.SEED * 31 + 7), 6 if tier == "quick" else 60)
+    sr_traces = []
+    for sc, r in zip(srp, txnlab.run_scenarios(exe, srp)):
+        if r.get("fatal"):
+            continue
+        sr_traces.append((sc, r))
+        bad = perc_progs.acked_commit_lost(sc, r)
+        if bad:
+            v.violation({"kind": "property-oracle", "scenario": sc, "violated": bad[:4]})
     allsc = probes + cases + hb + progs
     res = txnlab.run_scenarios(exe, allsc)
     nviol, dist, distinct, traces = 0, {}, set(), []
@@ -350,7 +381,8 @@ def main(tier, replay):
                              "trace_tail": [e for e in r.get("trace", []) if e["kind"] != "tso" and e.get("client") == "c1"][-50:]})
         if not sc.get("no_acceptor"):
             traces.append((sc, r))
-    cov["programs_monitored"] = len(progs)
+    traces += sr_traces
+    cov["programs_monitored"] = len(progs) + len(sr_traces)
     cov.update(run_acceptor(traces, v, PID, exe=exe))
     if not gate["ok"]:
         v.violation({"kind": "proof", "theorem_or_file": gate["problems"], "what": "Coq obligations no longer check"}, has_input=False)
